@@ -13,7 +13,7 @@ from mzverif.core import Failure, Stats, Sub, Violation, call, require
 
 ID = "C18"
 LEVEL = "exploration"
-TECHNIQUE = "Hypothesis over the cross product of configuration fields (option key order, None-valued and repeated filter records included); oracles = round trip (dict and JSON text), one-field metamorphic variants (hash must change), in-place edits after hashing, load histories (loaded copies edited in place must not leak into later loads), ingredients of the file name (names up to 180 characters), differential across sub-interpreters with different PYTHONHASHSEED"
+TECHNIQUE = "Hypothesis over the cross product of configuration fields (option key order, None-valued and repeated filter records included); oracles = round trip (dict and JSON text), one-field metamorphic variants (hash must change), in-place edits after hashing, load histories (loaded copies edited in place must not leak into later loads), ingredients of the file name (names up to 180 characters), differential across sub-interpreters with different PYTHONHASHSEED; identity re-read while other (collection) configurations are serialized in between; every endpoint option incl. except_when_invalid"
 RULE = (
     "case = JSON spec (name, grid_n, n_mazes, generator, kwargs, endpoint options, seed, recorded filters) [+ which single field to "
     "vary, which field to edit in place after hashing]. Sub-interpreter check: the same specs hashed under PYTHONHASHSEED in {0,1,4242,random}. Non-trivial = spec with non-empty "
